@@ -198,7 +198,38 @@ class Objects:
         raise EngineError("set.union outside the subset")
 
     def flatten(self, ex, st, s, start, node):
-        raise EngineError("sum(list-of-lists, []) outside the subset")
+        """sum(seq-of-lists, []) where every inner list has the same concrete length w:
+        element i of the result is element i % w of inner list i // w."""
+        if isinstance(start, tuple):
+            start = Seq.of(list(start), "list")
+        if not (start.concrete_len() and start.n == 0):
+            raise EngineError("%s:L%d: sum(lists, start) with a non-empty start outside the subset" % (ex.fnname, node.lineno))
+        probe = s.at(bvar("p")) if not s.concrete_len() else (s.at(0) if s.n else None)
+        if probe is None:
+            return Seq.of([], "list")
+        if isinstance(probe, tuple):
+            w = len(probe)
+            inner = lambda q, r: s.at(q)[r]
+        elif isinstance(probe, Seq) and probe.concrete_len():
+            w = probe.n
+            inner = lambda q, r: s.at(q).at(r)
+        else:
+            raise EngineError("%s:L%d: sum(list-of-lists, []) with inner lists of unknown length outside the subset" % (ex.fnname, node.lineno))
+        if w == 0:
+            return Seq.of([], "list")
+        if s.concrete_len():
+            return Seq.of([inner(q, r) for q in range(s.n) for r in range(w)], "list")
+
+        def elem(i):
+            if isinstance(i, int):
+                return inner(i // w, i % w)
+            iz = to_z3(i)
+            q = iz / w
+            out = inner(q, w - 1)
+            for r in range(w - 2, -1, -1):
+                out = zite(iz % w == r, inner(q, r), out)
+            return out
+        return Seq(to_z3(s.n) * w, elem, "list")
 
     def next_of(self, ex, st, v, node):
         raise EngineError("next() outside the subset")
@@ -295,6 +326,18 @@ def _install():
         libspec.trusted("scipy.integrate.quad(f, a, b)[0] = Q(b) - Q(a) for an antiderivative Q of the function it is "
                         "passed (exact integral: quadrature error not modelled); f is evaluated at interior points of (a, b) only")
         f, a, b = args[0], as_real(args[1]), as_real(args[2])
+        for kw in kwargs:
+            if kw != "points":
+                raise EngineError("%s:L%d: quad(..., %s=) outside the subset" % (ex.fnname, node.lineno, kw))
+        if kwargs.get("points") is not None:
+            # breakpoints only steer the subdivision (QAGP); the value is still the integral over [a, b]
+            pts = ex.as_seq(kwargs["points"], st)
+            if not pts.concrete_len() or pts.n:
+                q = bvar("q")
+                pq = to_z3(as_real(pts.at(q)))
+                ex.oblige(st, z3.ForAll([q], z3.Implies(z3.And(q >= 0, q < to_z3(pts.n)),
+                                                        z3.Or(z3.And(to_z3(a) <= pq, pq <= to_z3(b)), z3.And(to_z3(b) <= pq, pq <= to_z3(a))))),
+                          "quad-breakpoints-inside", node)
         # f is evaluated at points between a and b: its safety obligations at an arbitrary such point
         if ex.checking:
             zp = z3.Real(uid("quadpt"))
